@@ -213,6 +213,18 @@ def main(tier, write_baseline=False):
     run.trusted_base.update(["cddvc E1 block contracts with access paths on uninterpreted objects and Seq list views", "z3 5.1 sequences"])
     refuted = e1.run_contracts(run, "contracts.C13")
     srefuted = structural_lookup(run)
+
+    def struct_replay(_name):
+        # the clause the side conditions carry: nothing but the selected slot changes (run on the real sync_properties)
+        _n, fl = run_cases(None)
+        for (kind, nested, wrapped), (case, what) in fl.items():
+            if run.match_finding({"kind": kind, "method_target": str(nested), "wrap": str(wrapped), "obligation": "C13/bounded/%s" % kind}) is None:
+                return {"case": case, "what": what[:400]}
+        return None
+
+    srefuted, s_inputs = run.confirm_or_undecide(srefuted, struct_replay)
+    refuted, r_inputs = run.confirm_or_undecide(refuted, struct_replay)
+    s_inputs.update(r_inputs)
     if write_baseline:
         common.write_baseline("C13", [n for n, o in run.obligations.items() if o["status"] == "proved"])
     compare_baseline(run, set(run.obligations))
@@ -233,10 +245,10 @@ def main(tier, write_baseline=False):
         seen.add(o["name"])
         cand = next((v for k, v in fails.items() if k[0] == "other-code-changed"), None)
         run.violation(o["name"], "obligation refuted by %s on path %s" % (o["backend"], " ".join(o["trace"])),
-                      failing_input=({"case": cand[0], "what": cand[1]} if cand else None), solver_output={"model": o["model"], "smt2": (o["smt2"] or "")[:5000]})
+                      failing_input=s_inputs.get(o["name"]) or ({"case": cand[0], "what": cand[1]} if cand else None), solver_output={"model": o["model"], "smt2": (o["smt2"] or "")[:5000]})
     for name, detail in srefuted:
         cand = next((v for k, v in fails.items() if k[0] == "other-code-changed"), None)
-        run.violation(name, detail, failing_input=({"case": cand[0], "what": cand[1]} if cand else None), solver_output={"rule": detail})
+        run.violation(name, detail, failing_input=s_inputs.get(name) or ({"case": cand[0], "what": cand[1]} if cand else None), solver_output={"rule": detail})
     if not refuted and not srefuted:
         for (kind, nested, wrapped), (case, what) in fails.items():
             run.violation("C13/bounded/%s" % kind, what, key={"kind": kind, "method_target": str(nested), "wrap": str(wrapped)}, failing_input={"case": case})
